@@ -5,6 +5,9 @@ type C05Case struct {
 	Launch    string `json:"launch"` // cmd | runner | scripted
 	JitterMs  int    `json:"jitterMs"`
 	TimeoutMs int    `json:"timeoutMs"`
+	// TimeoutUs > 0: a StartTimeout of this many microseconds instead (1 = one nanosecond): the timeout
+	// expires while the launch itself is still in progress
+	TimeoutUs int `json:"timeoutUs,omitempty"`
 }
 
 type C05Obs struct {
@@ -12,6 +15,7 @@ type C05Obs struct {
 	StartMs       int64    `json:"startMs"`
 	StartReturned bool     `json:"startReturned"`
 	Pid           int      `json:"pid"`
+	LiveSeen      bool     `json:"liveSeen,omitempty"` // (tiny timeouts) a live process of this case was seen after Start returned
 	StateAtReturn string   `json:"stateAtReturn"`
 	StateSoon     string   `json:"stateSoon"` // after polling up to 5 s
 	SoonMs        int64    `json:"soonMs"`
